@@ -84,6 +84,9 @@ def flat_keys(k):
 
 
 # ---------------------------------------------------------------- generators
+BSHAPES = [(1,), (1,), (2,), (1, 2), (2, 1), (1, 1, 2), (2, 2), (1, 3)]
+
+
 def wf_amps(rng, B, n):
     """random well-formed amplitudes (B, n, 3) with exactly representable moduli"""
     st = np.zeros((B, n, 3), complex)
@@ -103,44 +106,62 @@ def wf_amps(rng, B, n):
     return st
 
 
+def sub_shape(rng, bshape):
+    """a shape broadcastable to bshape: every axis either kept or 1"""
+    return tuple(b if rng.random() < 0.7 else 1 for b in bshape)
+
+
+def batched_vectors(rng, shape, kdim, values, prev=None):
+    """array shape + (kdim,) of non-zero rows; batch entry 0 tends to repeat its previous value while the
+    other entries move independently (different coincidence structure per entry)"""
+    dk = np.array([[rng.choice(values) for _ in range(kdim)] for _ in range(int(np.prod(shape)))])
+    for r in dk:
+        if not r.any():
+            r[rng.randrange(kdim)] = rng.choice([v for v in values if v])
+    if prev is not None and rng.random() < 0.6:
+        dk[0] = np.asarray(prev).reshape(-1, kdim)[0]
+    return dk.reshape(tuple(shape) + (kdim,))
+
+
 def nd_chain(rng, steps):
-    """chain of shiftnd calls on realistic key sets; yields case dicts"""
+    """chain of shiftnd calls on realistic key sets, batch axes in any position; yields case dicts"""
     from epgpy import shift, statematrix
     kdim = rng.choice([1, 2, 3, 4])
     n0 = rng.choice([0, 1, 2])
-    coords = np.asarray(statematrix._setup_coords(n0, kdim))      # (1, n, kdim)
+    bshape = rng.choice(BSHAPES)
+    nb = len(bshape)
+    coords = np.asarray(statematrix._setup_coords(n0, kdim)).reshape((1,) * nb + (2 * n0 + 1, kdim))
     cases = []
+    prev = None
     for _ in range(steps):
         n = coords.shape[-2]
-        Bsh = rng.choice([1, 1, 1, 2])
-        dk = np.array([[rng.choice([0, 1, -1, 2, -2, 3]) for _ in range(kdim)] for _ in range(Bsh)])
-        for r in dk:
-            if not r.any():
-                r[rng.randrange(kdim)] = rng.choice([1, -1])
-        Bfull = max(Bsh, coords.shape[0])
-        Bst = Bfull if Bfull > 1 else rng.choice([1, 1, 2])
-        st = wf_amps(rng, Bst, n)
+        dshape = sub_shape(rng, bshape)
+        dk = batched_vectors(rng, dshape, kdim, [0, 1, -1, 2, -2, 3], prev).astype(int)
+        prev = dk
+        full = np.broadcast_shapes(coords.shape[:-2], dshape)
+        st = wf_amps(rng, int(np.prod(bshape)), n).reshape(tuple(bshape) + (n, 3))
         nmax = rng.choice([None, None, None, 1, 2, 3])
         prune = rng.choice([False, False, True])
         tol = 1e-8
-        case = {"kind": "nd", "coords": coords.tolist(), "states": [[[str(c) for c in r] for r in b] for b in st.tolist()],
-                "dk": dk.tolist(), "nmax": nmax, "prune": prune, "kdim": kdim}
+        case = {"kind": "nd", "coords": coords.tolist(), "states": [[[str(c) for c in r] for r in b] for b in st.reshape(-1, n, 3).tolist()],
+                "states_shape": list(st.shape), "dk": dk.tolist(), "nmax": nmax, "prune": prune, "kdim": kdim}
         try:
             sm2, k2 = shift.shiftnd(st.copy(), coords.copy(), dk.copy(), nmax=nmax, prune=prune, tol=tol)
         except Exception as e:
             case["raised"] = "%s: %s" % (type(e).__name__, str(e)[:200])
             cases.append((case, None))
             break
-        kin = np.broadcast_to(coords, (Bfull,) + coords.shape[-2:])
-        dkf = np.broadcast_to(dk, (Bfull, kdim)).reshape(-1)
+        sm2, k2 = np.asarray(sm2), np.asarray(k2)
+        kin = np.broadcast_to(coords, full + coords.shape[-2:])
+        dkf = np.broadcast_to(dk, full + (kdim,)).reshape(-1)
         args = "%s %s %s %d%%nat %s %s %s %s %s" % (
-            keys_lit(flat_keys(kin)), amps_lit(st), key_lit(dkf), kdim,
+            keys_lit(flat_keys(kin)), amps_lit(st.reshape(-1, n, 3)), key_lit(dkf), kdim,
             "None" if nmax is None else "(Some %s)" % zl(nmax), core.coq_bool(prune), qc_lit(Fraction(1, 10 ** 16)),
-            keys_lit(flat_keys(k2)), amps_lit(np.asarray(sm2)))
+            keys_lit(flat_keys(k2)), amps_lit(sm2.reshape((-1,) + sm2.shape[-2:])))
         cases.append((case, ["(nd_content %s)" % args, "(nd_strict %s)" % args]))
-        if k2.shape[-2] > 27 or k2.shape[-2] < 1:
+        if k2.shape[-2] > 27 or k2.shape[-2] < 1 or k2.size > 700:
             break
-        coords = np.asarray(k2)
+        coords = k2
     return cases
 
 
@@ -148,8 +169,12 @@ def uniq_case(rng):
     from epgpy import shift
     d = rng.choice([1, 2, 3])
     N = rng.randint(1, 14)
-    B = rng.choice([1, 1, 2])
-    v = np.array([[[rng.choice([-2, -1, 0, 0, 1, 2]) for _ in range(d)] for _ in range(N)] for _ in range(B)])
+    bshape = rng.choice(BSHAPES)
+    v = np.array([[[rng.choice([-2, -1, 0, 0, 1, 2]) for _ in range(d)] for _ in range(N)] for _ in range(int(np.prod(bshape)))])
+    if v.shape[0] > 1 and rng.random() < 0.6:
+        # entry 0 with many coincidences, the other entries with few
+        v[0] = v[0, rng.randrange(N)]
+    v = v.reshape(tuple(bshape) + (N, d))
     u, inv = shift.unique_1d(v, axis=-2)
     t = "(uniq_ok %s %s [%s])" % (keys_lit(flat_keys(v)), keys_lit(flat_keys(u)),
                                   "; ".join("%d%%nat" % i for i in np.ravel(inv)))
@@ -157,22 +182,29 @@ def uniq_case(rng):
 
 
 def merge_chain(rng, steps, which):
-    """chain of shiftmerge / shiftprune calls with dyadic wavenumbers, grids from much finer to coarser than the spacing"""
+    """chain of shiftmerge / shiftprune calls with dyadic wavenumbers, grids from much finer to coarser than the
+    spacing; shiftprune also with batched shifts (batch axes in any position), compared through flattened rows"""
     from epgpy import shift
     kdim = rng.choice([1, 2, 3, 4])
     grid = rng.choice([0.0625, 0.25, 0.25, 0.5, 1.0, 2.0])
-    wav = np.zeros((1, 1, kdim))
+    bshape = rng.choice(BSHAPES) if which == "prune" else (1,)
+    nb = len(bshape)
+    wav = np.zeros((1,) * nb + (1, kdim))
     cases = []
+    prev = None
     for _ in range(steps):
         n = wav.shape[-2]
-        dk = np.array([[rng.choice([0, 0.5, -0.5, 1.0, 0.75, -1.25, 2.0]) for _ in range(kdim)]])
-        if not dk.any():
-            dk[0, 0] = 0.5
-        Bst = rng.choice([1, 1, 2])
-        st = wf_amps(rng, Bst, n)
+        dshape = sub_shape(rng, bshape) if which == "prune" else (1,)
+        dk = batched_vectors(rng, dshape, kdim, [0, 0.5, -0.5, 1.0, 0.75, -1.25, 2.0], prev)
+        prev = dk
+        full = np.broadcast_shapes(wav.shape[:-2], dshape)
+        nst = int(np.prod(bshape)) if which == "prune" else rng.choice([1, 1, 2])
+        st = wf_amps(rng, nst, n)
+        if which == "prune":
+            st = st.reshape(tuple(bshape) + (n, 3))
         prune = rng.choice([False, False, True])
-        case = {"kind": which, "wavenums": wav.tolist(), "states": [[[str(c) for c in r] for r in b] for b in st.tolist()],
-                "dk": dk.tolist(), "grid": grid, "prune": prune}
+        case = {"kind": which, "wavenums": wav.tolist(), "states": [[[str(c) for c in r] for r in b] for b in st.reshape(-1, n, 3).tolist()],
+                "states_shape": list(st.shape), "dk": dk.tolist(), "grid": grid, "prune": prune}
         try:
             if which == "merge":
                 sm2, k2 = shift.shiftmerge(st.copy(), wav.copy(), dk.copy(), grid=grid, prune=prune, tol=1e-8)
@@ -182,23 +214,35 @@ def merge_chain(rng, steps, which):
             case["raised"] = "%s: %s" % (type(e).__name__, str(e)[:200])
             cases.append((case, None))
             break
+        sm2, k2 = np.asarray(sm2), np.asarray(k2)
         tol2 = qc_lit(Fraction(1, 10 ** 16))
+        win = flat_keys(np.broadcast_to(wav, full + wav.shape[-2:]))
+        dkf = np.broadcast_to(dk, full + (kdim,)).reshape(-1)
+        nflat = len(dkf)
+        stl = amps_lit(st.reshape(-1, n, 3)); outl = amps_lit(sm2.reshape((-1,) + sm2.shape[-2:]))
         if which == "merge":
-            t = "(merge_ok %s %s %s %s %s %s %s %s)" % (wav_lit(wav[0]), amps_lit(st), qvec_lit(dk[0]), qvec_lit([grid] * kdim),
-                                                     core.coq_bool(prune), tol2, wav_lit(k2[0]), amps_lit(np.asarray(sm2)))
+            t = "(merge_ok %s %s %s %s %s %s %s %s)" % (wav_lit(win), stl, qvec_lit(dkf), qvec_lit([grid] * nflat),
+                                                     core.coq_bool(prune), tol2, wav_lit(flat_keys(k2)), outl)
         else:
-            t = "(prune_ok %s %s %s %s %s %s %s)" % (wav_lit(wav[0]), amps_lit(st), qvec_lit(dk[0]), qvec_lit([grid] * kdim),
-                                                  tol2, wav_lit(k2[0]), amps_lit(np.asarray(sm2)))
+            t = "(prune_ok %s %s %s %s %s %s %s)" % (wav_lit(win), stl, qvec_lit(dkf), qvec_lit([grid] * nflat),
+                                                  tol2, wav_lit(flat_keys(k2)), outl)
         cases.append((case, [t]))
         # keep inputs exactly dyadic (multiples of 2^-8) so that binary64 and rational arithmetic coincide on them
-        if k2.shape[-2] > 21 or not np.all(k2 * 256 == np.round(k2 * 256)):
+        if k2.shape[-2] > 21 or k2.size > 500 or not np.all(k2 * 256 == np.round(k2 * 256)):
             break
-        wav = np.asarray(k2)
+        wav = k2
     return cases
 
 
 # ---------------------------------------------------------------- (b) isochromat oracle
+def align(a, nb):
+    """epgpy aligns operator axes with the FIRST state axes: append the missing ones"""
+    a = np.asarray(a)
+    return a.reshape(a.shape + (1,) * (nb - a.ndim))
+
+
 def rot(m, al, ph):
+    """m (..., P, 3); al broadcastable to m[..., 0] (degrees)"""
     a_, p_ = np.deg2rad(al), np.deg2rad(ph)
     mx, my, mz = m[..., 0].real, m[..., 0].imag, m[..., 2].real
     nx, ny = np.cos(p_), np.sin(p_)
@@ -210,130 +254,213 @@ def rot(m, al, ph):
 
 
 GAMMA = 42.576e3
+KGRID = 1.0 / 64
 
 
 def gen_seq(rng, fam=None):
-    """a sequence of real operators as constructor tuples; fam picks the shift representation"""
-    fam = fam or rng.choice(["nd", "nd", "float", "grad", "mixed", "time"])
+    """a sequence of real operators as constructor tuples; operator OBJECTS are shared between equal tuples
+    (as users do with [exc] + [grad, rf, grad, adc] * n); non-unit kvalue (scalar / per axis) and tvalue"""
+    fam = fam or rng.choice(["nd", "nd", "float", "float", "grad", "mixed", "time"])
     dim = rng.choice([1, 2, 3])
-    ops = []
-    nshift = 0
-    L = rng.randint(3, 9)
-    for _ in range(L):
-        k = rng.choice(["T", "T", "E", "S", "S", "S"])
-        if k == "S" and nshift >= 4:
-            k = "T"
+
+    def one(k):
         if k == "T":
-            ops.append(("T", rng.choice([20, 45, 60, 90, 120, 160]), rng.choice([0, 30, 90, 200])))
-        elif k == "E":
-            ops.append(("E", rng.choice([2.0, 5.0, 10.0]), rng.choice([400.0, 1000.0]), rng.choice([30.0, 80.0]), rng.choice([0.0, 0.01, -0.03])))
-        else:
-            nshift += 1
-            f = fam
-            if fam == "mixed":
-                f = rng.choice(["float", "grad", "time", "nd"])
-            if f == "nd":
-                v = [rng.choice([0, 1, -1, 2]) for _ in range(dim)]
-                if not any(v):
-                    v[0] = 1
-                ops.append(("Snd", v))
-            elif f == "float":
-                v = [rng.choice([0.0, 0.5, 1.0, -1.25, 2.0, 0.75]) for _ in range(dim)]
-                if not any(v):
-                    v[0] = 0.5
-                ops.append(("Sfl", v))
-            elif f == "grad":
-                g = [rng.choice([0.0, 2.0, -2.0, 4.0, 10.0]) for _ in range(3)]
-                if not any(g):
-                    g[0] = 2.0
-                ops.append(("G", rng.choice([0.5, 1.0, 2.0]), g))
-            else:
-                ops.append(("C", rng.choice([1.0, 2.0, 3.5])))
-    if nshift == 0:
-        ops.append(("Snd", [1] + [0] * (dim - 1)))
-    kvalue = rng.choice([1.0, 1.0, 2.5]) if fam in ("nd",) else 1.0
-    return {"fam": fam, "ops": ops, "kvalue": kvalue, "kgrid": 0.125}
+            return ("T", rng.choice([20, 45, 60, 90, 120, 160]), rng.choice([0, 30, 90, 200]))
+        if k == "E":
+            return ("E", rng.choice([2.0, 5.0, 10.0]), rng.choice([400.0, 1000.0]), rng.choice([30.0, 80.0]), rng.choice([0.0, 0.01, -0.03]))
+        f = fam
+        if fam == "mixed":
+            f = rng.choice(["float", "grad", "time", "nd"])
+        if f == "nd":
+            v = [rng.choice([0, 1, -1, 2]) for _ in range(dim)]
+            if not any(v):
+                v[0] = 1
+            return ("Snd", v)
+        if f == "float":
+            v = [rng.choice([0.0, 0.5, 1.0, -1.25, 2.0, 0.75]) for _ in range(dim)]
+            if not any(v):
+                v[0] = 0.5
+            return ("Sfl", v)
+        if f == "grad":
+            g = [rng.choice([0.0, 2.0, -2.0, 4.0, 10.0]) for _ in range(3)]
+            if not any(g):
+                g[0] = 2.0
+            return ("G", rng.choice([0.5, 1.0, 2.0]), g)
+        return ("C", rng.choice([1.0, 2.0, 3.5]))
+    ops = []
+    if rng.random() < 0.6:
+        # excitation + a block repeated n times
+        ops.append(one("T"))
+        block = [one(rng.choice(["S", "T", "E", "S"])) for _ in range(rng.randint(2, 3))]
+        if not any(o[0] not in "TE" for o in block):
+            block[0] = one("S")
+        ns = sum(1 for o in block if o[0] not in "TE")
+        ops += block * (2 if ns > 1 else rng.choice([2, 3, 4]))
+    else:
+        nshift = 0
+        for _ in range(rng.randint(3, 9)):
+            k = rng.choice(["T", "T", "E", "S", "S", "S"])
+            if k == "S" and nshift >= 4:
+                k = "T"
+            nshift += k == "S"
+            ops.append(one(k))
+        if nshift == 0:
+            ops.append(one("S"))
+    per_axis_ok = dim == 3 or fam in ("grad", "time")
+    kvalue = rng.choice([1.0, 2.5, 0.25, 2.5] + ([[2.5, 1.0, 0.5], [0.5, 2.0, 1.0]] if per_axis_ok else []))
+    tvalue = rng.choice([1.0, 2.0, 0.5])
+    return {"fam": fam, "ops": ops, "kvalue": kvalue, "tvalue": tvalue, "kgrid": KGRID, "reuse": rng.random() < 0.8}
 
 
 def build(o):
+    """returns (operator, arrays handed to the constructor)"""
     import epgpy as epg
     k = o[0]
-    if k == "T": return epg.T(o[1], o[2])
-    if k == "E": return epg.E(o[1], o[2], o[3], o[4])
-    if k == "Snd": return epg.S(np.array(o[1], dtype=int), prune=0)
-    if k == "S1": return epg.S(int(o[1]))
-    if k == "Sfl": return epg.S(np.array(o[1], dtype=float), prune=0)
-    if k == "Sflb": return epg.S(np.array([o[1], o[1]], dtype=float), prune=0)
-    if k == "G": return epg.G(o[1], o[2], prune=0)
-    if k == "C": return epg.C(o[1], prune=0)
+    if k == "T": return epg.T(o[1], o[2]), []
+    if k == "E": return epg.E(o[1], o[2], o[3], o[4]), []
+    if k == "S1": return epg.S(int(o[1])), []
+    if k in ("Snd", "Sfl", "Sflb", "Sflb1"):
+        a = np.array(o[1], dtype=int if k == "Snd" else float)
+        if k == "Sflb": a = np.array([o[1], o[1]], dtype=float)
+        if k == "Sflb1": a = np.array([[o[1], o[1]]], dtype=float)
+        return epg.S(a, prune=0), [a]
+    if k == "G":
+        g = np.array(o[2], dtype=float)
+        return epg.G(o[1], g, prune=0), [g]
+    if k == "C": return epg.C(o[1], prune=0), []
+    if k == "Tb": return epg.T(np.array(o[1], dtype=float), o[2]), []
+    if k == "Sb":
+        a = np.array(o[1], dtype=int if o[2] == "int" else float)
+        return epg.S(a, prune=0), [a]
     raise ValueError(k)
 
 
+def snap(op, arrs):
+    k = getattr(op, "k", None)
+    ks = None if k is None or isinstance(k, int) else (np.asarray(k).dtype.str, np.asarray(k).shape, np.asarray(k).tobytes())
+    return ks, [(a.dtype.str, a.shape, a.tobytes()) for a in arrs]
+
+
+def make_ops(p):
+    """operator objects of a program; equal constructor tuples share ONE object when p['reuse']"""
+    cache, objs, watch = {}, [], []
+    for o in p["ops"]:
+        key = repr(o)
+        if p.get("reuse", True) and key in cache:
+            objs.append(cache[key]); continue
+        op, arrs = build(o)
+        cache[key] = op
+        if hasattr(op, "k"):
+            watch.append((o, op, arrs, snap(op, arrs)))
+        objs.append(op)
+    return objs, watch
+
+
+def mutated(watch):
+    for o, op, arrs, before in watch:
+        if snap(op, arrs) != before:
+            return "operator %s: its k (or the array handed to its constructor) is not bytes-identical after the run" % (o,)
+    return None
+
+
 def run_seq(p, init_opts=None):
+    """returns (final state matrix, description of a mutated operator or None)"""
     import epgpy as epg
-    opts = dict(kgrid=p["kgrid"], kvalue=p["kvalue"])
+    opts = dict(kgrid=p["kgrid"], kvalue=p["kvalue"], tvalue=p.get("tvalue", 1.0))
     opts.update(init_opts or {})
     sm = epg.StateMatrix(**opts)
-    for o in p["ops"]:
-        sm = build(o)(sm, inplace=True)
-    return sm
+    objs, watch = make_ops(p)
+    for op in objs:
+        sm = op(sm, inplace=True)
+    return sm, mutated(watch)
+
+
+def shift_vector(p, o):
+    """phase advance (batch..., 4) = (rad/m x3, time) of one shift operator, in physical units"""
+    k = o[0]
+    kv = np.ones(3) * np.asarray(p["kvalue"], dtype=float)
+    if k in ("Snd", "Sfl", "Sflb", "Sflb1"):
+        v = np.zeros(4); v[:len(o[1])] = o[1]
+    elif k == "S1":
+        v = np.array([o[1], 0, 0, 0.0])
+    elif k == "G":
+        v = np.zeros(4); v[:3] = 2 * np.pi * GAMMA * 1e-3 * o[1] * np.array(o[2])
+    elif k == "C":
+        v = np.array([0, 0, 0, o[1]], dtype=float)
+    elif k == "Sb":
+        a = np.asarray(o[1], dtype=float)
+        v = np.zeros(a.shape[:-1] + (4,)); v[..., :a.shape[-1]] = a
+    else:
+        raise ValueError(k)
+    v = v.copy()
+    v[..., :3] = v[..., :3] * kv
+    v[..., 3] = v[..., 3] * p.get("tvalue", 1.0)
+    return v
 
 
 def bloch(p, pos, freq):
-    """independent isochromats at positions pos (P,3) [m] with off-resonance freq (P,) [kHz]"""
+    """independent isochromats at positions pos (P,3) [m] with off-resonance freq (P,) [kHz];
+    batched operators (Tb / Sb) give one isochromat per batch entry: result (batch..., P, 3)"""
     P = pos.shape[0]
-    m = np.zeros((P, 3), complex); m[:, 2] = 1
+    nb = p.get("nb", 0)
+    m = np.zeros((1,) * nb + (P, 3), complex); m[..., 2] = 1
     for o in p["ops"]:
         k = o[0]
         if k == "T":
             m = rot(m, o[1], o[2])
+        elif k == "Tb":
+            m = rot(m, align(o[1], nb)[..., None], o[2])
         elif k == "E":
             tau, T1, T2, g = o[1:]
             e2 = np.exp(-tau / T2) * np.exp(2j * np.pi * g * tau)
             e1 = np.exp(-tau / T1)
-            m = np.stack([m[:, 0] * e2, m[:, 1] * np.conj(e2), m[:, 2] * e1 + (1 - e1)], axis=-1)
+            m = np.stack([m[..., 0] * e2, m[..., 1] * np.conj(e2), m[..., 2] * e1 + (1 - e1)], axis=-1)
         else:
-            if k in ("Snd", "Sfl", "Sflb"):
-                v = np.zeros(4); v[:len(o[1])] = o[1]
-                v[:3] *= p["kvalue"]
-            elif k == "S1":
-                v = np.array([o[1] * p["kvalue"], 0, 0, 0.0])
-            elif k == "G":
-                v = np.zeros(4); v[:3] = 2 * np.pi * GAMMA * 1e-3 * o[1] * np.array(o[2])
-            else:
-                v = np.array([0, 0, 0, o[1]])
-            ph = np.exp(1j * (pos @ v[:3] + 2 * np.pi * freq * v[3]))
-            m = np.stack([m[:, 0] * ph, m[:, 1] * np.conj(ph), m[:, 2]], axis=-1)
+            v = shift_vector(p, o)
+            v = v.reshape(v.shape[:-1] + (1,) * (nb - (v.ndim - 1)) + (4,))       # (batch..., 4)
+            ph = np.exp(1j * (np.einsum("...k,pk->...p", v[..., :3], pos) + 2 * np.pi * freq * v[..., 3:4]))
+            m = np.stack([m[..., 0] * ph, m[..., 1] * np.conj(ph), m[..., 2] * np.ones_like(ph)], axis=-1)
     return m
 
 
-def synth(sm, pos, freq, b=0):
-    """direct inverse Fourier sum of the stored states over the stored wavenumbers"""
+def synth(sm, pos, freq):
+    """direct inverse Fourier sum of the stored states over the stored wavenumbers, every batch entry: (batch..., P)"""
     F = np.asarray(sm.F); Z = np.asarray(sm.Z)
-    k = np.asarray(sm.k); t = sm.t
-    F = F.reshape((-1, F.shape[-1]))[b]; Z = Z.reshape((-1, Z.shape[-1]))[b]
-    k = np.broadcast_to(k, (max(1, int(np.prod(k.shape[:-2]))),) + k.shape[-2:]) if k.ndim == 3 else k.reshape((-1,) + k.shape[-2:])
-    k = k[min(b, k.shape[0] - 1)]
-    kk = np.zeros((k.shape[0], 3)); kk[:, :k.shape[1]] = k
+    k = np.asarray(sm.k, dtype=float); t = sm.t
+    k = k.reshape((1,) * (F.ndim + 1 - k.ndim) + k.shape)
+    kk = np.zeros(k.shape[:-1] + (3,)); kk[..., :k.shape[-1]] = k
+    kk = np.broadcast_to(kk, np.broadcast_shapes(kk.shape[:-1], F.shape) + (3,))
     if np.isscalar(t):
-        tt = np.zeros(k.shape[0])
+        tt = np.zeros(F.shape)
     else:
-        t = np.asarray(t); tt = t.reshape((-1, t.shape[-1])); tt = tt[min(b, tt.shape[0] - 1)]
-    ph = np.exp(1j * (pos @ kk.T + 2 * np.pi * freq[:, None] * tt[None, :]))
-    return ph @ F, ph @ Z
+        tt = np.asarray(t, dtype=float); tt = np.broadcast_to(tt.reshape((1,) * (F.ndim - tt.ndim) + tt.shape), F.shape)
+    ph = np.exp(1j * (np.einsum("...nk,pk->...pn", kk, pos) + 2 * np.pi * freq[:, None] * tt[..., None, :]))
+    return np.einsum("...pn,...n->...p", ph, F), np.einsum("...pn,...n->...p", ph, Z)
 
 
 def oracle_case(ctx, p, pos, freq):
     """returns None or a description of the discrepancy"""
     from epgpy import utils
     import epgpy as epg
-    sm = run_seq(p)
+    sm, mut = run_seq(p)
     ref = bloch(p, pos, freq)
     mp, mz = synth(sm, pos, freq)
     scale = 1 + np.abs(ref).max()
-    e = max(np.abs(mp - ref[:, 0]).max(), np.abs(mz - ref[:, 2]).max())
+    if p.get("nb"):
+        if mp.shape != ref.shape[:-1]:
+            return "state matrix shape %s, expected one signal per batch entry %s" % (mp.shape[:-1], ref.shape[:-2])
+    else:
+        mp, mz = mp.reshape(-1, len(pos))[0], mz.reshape(-1, len(pos))[0]
+    e = max(np.abs(mp - ref[..., 0]).max(), np.abs(mz - ref[..., 2]).max())
     if not e <= 1e-9 * scale:
-        return "sum_k F(k) exp(i k.x) differs from the isochromat at x by %.3g" % e
+        where = ""
+        if p.get("nb"):
+            where = " at batch entry %s" % (np.unravel_index(np.argmax(np.abs(mp - ref[..., 0]).max(-1)), mp.shape[:-1]),)
+        return "sum_k F(k) exp(i k.x) differs from the isochromat at x by %.3g%s" % (e, where)
+    if mut:
+        return mut
+    if p.get("nb"):
+        return None
     # through the probes
     kd = np.asarray(sm.k).shape[-1]
     d = np.asarray(utils.imaging(pos[:, :kd], sm.F, sm.k[..., :3], acctime=sm.t if sm.kdim == 4 else None,
@@ -347,6 +474,32 @@ def oracle_case(ctx, p, pos, freq):
         if not e <= 1e-9 * scale:
             return "DFT probe differs from the isochromat by %.3g" % e
     return None
+
+
+def gen_batched(rng):
+    """shifts batched per simulated signal on state axis 0, 1 or 2 (leading singleton axes in k), flip angles batched
+    on another axis; integer (shift-nd) or float (shift-prune) tables whose entries have different coincidences"""
+    layout = rng.choice(["k0", "k1", "k1", "k2"])
+    typ = rng.choice(["int", "float"])
+    d = rng.choice([1, 2, 3])
+    B = rng.choice([2, 3])
+    A = rng.choice([1, 2])
+    alphas = [rng.choice([35.0, 70.0, 110.0]) for _ in range(A)]
+    scale = 1 if typ == "int" else rng.choice([0.5, 0.375])
+    kshape = {"k0": (B,), "k1": (1, B), "k2": (1, 1, B)}[layout]
+    al = np.array(alphas).reshape((1, A) if layout == "k0" else (A,))
+    nb = {"k0": 2, "k1": 2, "k2": 3}[layout]
+    ops, prev = [], None
+    tables = {}
+    for i in range(rng.randint(2, 4)):
+        ops.append(("Tb", (al * rng.choice([1.0, 0.5, 1.5])).tolist(), rng.choice([0.0, 10.0, 75.0, 130.0])))
+        if rng.random() < 0.5:
+            ops.append(("E", 5.0, 1000.0, 80.0, rng.choice([0.0, 0.01])))
+        tab = batched_vectors(rng, kshape, d, [0, 1, -1, 1, 2], prev)
+        prev = tab
+        ops.append(("Sb", (tab * scale).tolist(), typ))
+    return {"fam": "batched-%s-%s" % (typ, layout), "ops": ops, "kvalue": rng.choice([1.0, 2.5]), "tvalue": 1.0,
+            "kgrid": 1.0 / 1024, "reuse": True, "nb": nb}
 
 
 def positions(rng, p, n=4):
@@ -373,7 +526,8 @@ def content_of(sm, b=0):
 
 
 def agree_case(rng):
-    """one integer-step program and its renderings in the different back-ends (kvalue = 1)"""
+    """one integer-step program and its renderings in the different back-ends; non-unit kvalue, operator objects of
+    equal steps shared"""
     L = rng.randint(3, 8)
     base = []
     for _ in range(L):
@@ -385,6 +539,7 @@ def agree_case(rng):
         base = [o for i, o in enumerate(base) if o[0] != "S" or i % 2 == 0]
     if not any(o[0] == "S" for o in base):
         base.append(("S", 1))
+    kvalue = rng.choice([1.0, 2.5, 0.25])
 
     def render(kind):
         level = 0       # 0: no coords, 1: int coords, 2: float coords
@@ -402,9 +557,9 @@ def agree_case(rng):
             elif c == "Snd1": ops.append(("Snd", [d])); level = max(level, 1)
             elif c == "Snd3": ops.append(("Snd", [d, 0, 0])); level = max(level, 1)
             elif c == "Sfl": ops.append(("Sfl", [float(d)])); level = 2
-            elif c == "Sflb": ops.append(("Sflb", [float(d)])); level = 2
-        return {"ops": ops, "kvalue": 1.0, "kgrid": 0.25, "fam": kind}
-    return base, {k: render(k) for k in ["S1", "Snd1", "Snd3", "Sfl", "Sflb", "switch"]}
+            elif c in ("Sflb", "Sflb1"): ops.append((c, [float(d)])); level = 2
+        return {"ops": ops, "kvalue": kvalue, "tvalue": 1.0, "kgrid": KGRID, "fam": kind, "reuse": True}
+    return base, {k: render(k) for k in ["S1", "Snd1", "Snd3", "Sfl", "Sflb", "Sflb1", "switch"]}
 
 
 def compare_contents(a, b):
@@ -531,7 +686,7 @@ def run(ctx):
     fams = {}
     oracle_failed = False
     for i in range(n_or):
-        p = gen_seq(rng)
+        p = gen_batched(rng) if i % 3 == 2 else gen_seq(rng)
         fams[p["fam"]] = fams.get(p["fam"], 0) + 1
         pos, freq = positions(rng, p)
         try:
@@ -557,19 +712,25 @@ def run(ctx):
         base, rend = agree_case(rng)
         pos = np.array([[rng.uniform(-3, 3), 0, 0] for _ in range(3)]); freq = np.zeros(3)
         try:
-            sms = {k: run_seq(r) for k, r in rend.items()}
+            runs = {k: run_seq(r) for k, r in rend.items()}
+            sms = {k: v[0] for k, v in runs.items()}
         except Exception as e:
             ctx.report("valid sequence raises %s: %s" % (type(e).__name__, str(e)[:200]), {"agree_case": rend}, found_input=True,
                        signature={"raises": type(e).__name__, "fam": "agree"})
             oracle_failed = True
             continue
-        ref_c = content_of(sms["S1"]); ref_s = synth(sms["S1"], pos, freq)[0]
+        for k, (_, mut) in runs.items():
+            if mut:
+                oracle_failed = True
+                ctx.report(mut, {"agree_case": rend[k], "reference": rend["S1"]}, found_input=True, signature={"mutated": k})
+        first = lambda a: np.asarray(a).reshape(-1, len(pos))[0]
+        ref_c = content_of(sms["S1"]); ref_s = first(synth(sms["S1"], pos, freq)[0])
         ref_f0 = np.ravel(np.asarray(sms["S1"].F0))[0]
         for k, sm in sms.items():
             try:
                 c = content_of(sm)
                 e1 = compare_contents(ref_c, c)
-                e2 = np.abs(synth(sm, pos, freq)[0] - ref_s).max()
+                e2 = np.abs(first(synth(sm, pos, freq)[0]) - ref_s).max()
                 f0 = np.asarray(sm.F0); f0 = f0.reshape((-1,) + f0.shape[-1:])[0] if sm.kdim >= 4 else np.ravel(f0)[:1]
                 e3 = abs(np.sum(f0) - ref_f0)
             except (ValueError, OverflowError):      # non-finite states or wavenumbers
@@ -589,7 +750,7 @@ def run(ctx):
     ctx.cov["trusted_base"] += [
         "hand-written model Model/ShiftND.v tied to epgpy.shift (shiftnd, unique_1d, shiftmerge, shiftprune, get_shift_method) by exact dyadic correspondence; wavenumbers of shiftmerge compared to 1e-12",
         "flattening of batched coordinates to one key per row, and broadcasting of coords/shift, done by the harness",
-        "isochromat oracle (Python, textbook rotation / relaxation / phase advance) used as supporting random testing, tolerance 1e-9",
+        "isochromat oracle (Python, textbook rotation / relaxation / phase advance; re-used operator objects, non-unit kvalue/tvalue, shifts batched on state axis 0/1/2 against one isochromat per batch entry) used as supporting random testing, tolerance 1e-9",
         "constant of utils.get_wavenumber read from the source by ast comparison; 2*pi as the binary64 value"]
     if not proved and not oracle_failed:
         ctx.report("proof obligations of C04 no longer check: %s" % ctx.failed_obligations,
@@ -610,8 +771,9 @@ def replay(ctx, rp):
     if "agree_case" in rp and "reference" in rp:
         a = dict(rp["agree_case"]); a["ops"] = [tuple(o) for o in a["ops"]]
         b = dict(rp["reference"]); b["ops"] = [tuple(o) for o in b["ops"]]
-        e = compare_contents(content_of(run_seq(a)), content_of(run_seq(b)))
-        print("replay: content difference %.3g" % e)
-        return 1 if e > 1e-11 else 0
+        (sa, ma), (sb, mb) = run_seq(a), run_seq(b)
+        e = compare_contents(content_of(sa), content_of(sb))
+        print("replay: content difference %.3g; %s" % (e, ma or mb or "operators unchanged"))
+        return 1 if (e > 1e-11 or ma or mb) else 0
     print("replay: not an input replay (%s)" % rp.get("what"))
     return 1
